@@ -53,6 +53,22 @@ def run(tier, wd):
                         cases.append(c)
                         abstracts.append(a)
     rep.cov["shared_variable_cases"] = nsib
+    # the option is a member of an option group and absent from the line, while an option declared after it (-x) is given, with and
+    # without further arguments: default and environment stay as they are
+    ngrp = 0
+    for typ in V.BUILTIN:
+        for di, default in enumerate(V.DEFAULTS[typ]):
+            for envpat in V.env_patterns(1):
+                if V.base(typ) == "string" and "invalid" in envpat:
+                    continue
+                for spec, argv in (("[OPTIONS]", ["-x"]), ("[-ox]", ["-x"]), ("[-xo]", ["-x"]), ("[OPTIONS]", [])):
+                    n += 1
+                    ngrp += 1
+                    c, a = V.concrete(typ, "opt", n % 2 == 0, default, envpat, (), rnd, tag="_%d" % (n % 7))
+                    c.update(spec=spec, argv=list(argv), extraflag=True)
+                    cases.append(c)
+                    abstracts.append(a)
+    rep.cov["absent_group_member_cases"] = ngrp
     rows = vc.run_cases(rep, wd, binpath, cases, abstracts, "c06")
     nontriv = 0
     for case, a, clean, dev, r in rows:
